@@ -312,7 +312,7 @@ def suffixKeeps (f : FilterObj) (ordering : List (Tok × Nat)) (lt rt : List Tok
   if handleEmpty f && ln = 0 && rn = 0 then true else
   let rp := f.cfg.prefixLen rn
   if lp ≤ 0 || rp ≤ 0 then false else
-  !suffixFilterSuffix f (pyDrop ol lp) (pyDrop or_ rp) lp rp ln rn
+  !suffixFilterSuffixN f (pyDrop ol lp) (pyDrop or_ rp) lp rp ln rn
 
 theorem suffixPairRows_eq (f : FilterObj) (o : OutCfg) (ordering : List (Tok × Nat))
     (lRow : Row) (lt : List Tok) (rRow : Row) (rt : List Tok) :
